@@ -266,11 +266,17 @@ Raise(caught) ==
 (***************************************************************************)
 (* AutonomousStateMachine                                                  *)
 (***************************************************************************)
+\* on_enable(): a new autonomous period.  It always starts from the first state: a machine that is still running
+\* (the previous period was not ended with on_disable() - the selector documents disable() as optional), or that has
+\* a state pending, is stopped through done() first.  "enable_keeps_running" is the tree before that was repaired.
 AEnable ==
     /\ AtTop /\ sh.auto
-    /\ autoOn' = TRUE /\ latchSet' = TRUE /\ out' = <<>> /\ br' = <<>> /\ post' = FALSE
-    /\ UNCHANGED <<sh, se, eng, cur, start, now, ran, st0, exp, dur, ntcur, stack, acted, req,
-                   ncalls, nsn, dflag, udone, pure, inAuto, stale>>
+    /\ LET r0 == IF (eng \/ ntcur # "") /\ "enable_keeps_running" \notin Dev THEN RDone(Rec) ELSE Rec
+           r1 == Tag([r0 EXCEPT !.autoOn = TRUE], "AutoEnable")
+       IN Commit(r1)
+    /\ latchSet' = TRUE /\ post' = FALSE
+    /\ dflag' = (dflag \/ ((eng \/ ntcur # "") /\ "enable_keeps_running" \notin Dev))
+    /\ UNCHANGED <<sh, now, dur, stack, acted, req, ncalls, nsn, udone, inAuto, stale>>
 
 AIter ==           \* on_iteration(): if latched, engage(); execute(); latch := is_executing
     /\ AtTop /\ sh.auto
@@ -378,6 +384,9 @@ C04_RestartAtZero ==
 C13_NeverCycles == (sh.auto /\ Judged) => ~Has("ExpireLastCycle")
 C13_SilentWhenOff ==
     [][(Judged' /\ sh.auto /\ ~autoOn /\ AtTop /\ out' # out /\ ~(autoOn')) => Len(Calls') = 0]_mvars
+\* C13: on_enable() leaves a stopped, clean machine with the latch on: the next on_iteration() starts at the first
+\*      state with tm at zero (C04_RestartAtZero), whatever the previous period left behind
+C13_EnableRestarts == (sh.auto /\ Judged /\ Has("AutoEnable")) => (autoOn /\ ~eng /\ (cur = None \/ cur = sh.default) /\ ntcur = "")
 C13_LatchFollowsExecuting == (Judged /\ sh.auto /\ post /\ inAuto) => (autoOn = eng)
 C13_OffMeansNotExecuting == (Judged /\ sh.auto /\ AtTop /\ ~autoOn) => ~eng
 =============================================================================
